@@ -5,12 +5,15 @@ python3 "$ROOT/tools/c16_matrix.py" "$tier"; _r=$?; [ $_r -gt $_rc ] && _rc=$_r
 _parts="k1"
 mkdir -p "$ROOT/target/transcripts16"
 _built=""
-# the five configurations have their own target directories: build them concurrently
-for cfg in rel relcheck stdmin nostd nostdcheck; do
+# the configurations have their own target directories: build them concurrently
+_cfgs="rel relcheck stdmin nostd nostdcheck"
+# the true dev profile (opt-level 0) is slow for the reference model: thorough tier only
+[ "$tier" = "thorough" ] && _cfgs="$_cfgs dev"
+for cfg in $_cfgs; do
   ( if [ "$cfg" = nostd ]; then build $cfg c16 c06; else build $cfg c16; fi; echo $? > "$ROOT/target/c16-build-$cfg.rc" ) &
 done
 wait
-for cfg in rel relcheck stdmin nostd nostdcheck; do
+for cfg in $_cfgs; do
   if [ "$(cat "$ROOT/target/c16-build-$cfg.rc" 2>/dev/null)" = 0 ]; then
     NBMC_NO_PYREF=1 NBMC_PART=$cfg NBMC_CONFIG=$cfg NBMC_TRANSCRIPT_OUT="$ROOT/target/transcripts16/$cfg.txt" "$(bindir $cfg)/c16" "$tier"; _r=$?
     [ $_r -gt $_rc ] && _rc=$_r
